@@ -127,7 +127,9 @@ public:
         // Build first level
         auto in_fun = [&](auto i) { return first[i]; };
         auto out_fun = [&](auto cs) { segments.emplace_back(cs); };
-        auto last_n = internal::make_segmentation_par(n, Epsilon, in_fun, out_fun);
+        // The sequential builder is used on purpose: segments cut at the chunk boundaries of make_segmentation_par can
+        // start less than 2 * Epsilon positions after the previous one, and CompressedLevel needs increasing intercepts
+        auto last_n = internal::make_segmentation(n, Epsilon, in_fun, out_fun);
         if (segments.back().get_first_x() == sentinel) { // data ends at sentinel - 1 and the closing point stands alone
             segments.pop_back();
             --last_n;
